@@ -2472,6 +2472,12 @@ template< typename... T>
 
       std::string  list_val( *it);
 
+      // the tuple is complete already: its values came from an argument file
+      // or an environment variable (values from the command line are limited
+      // by the cardinality) and are now replaced by a new set of values
+      if (mNumValuesSet == mTupleLength)
+         mNumValuesSet = 0;
+
       check( list_val);
 
       if (!mFormats.empty())
